@@ -128,39 +128,74 @@ pub fn shrink_value_steps(v: &DV) -> Vec<DV> {
   out
 }
 
-/// alternately shrink schema and value while `pred(schema, value)` holds
-pub fn shrink_pair(g: &GS, v: &DV, budget: usize, pred: &mut dyn FnMut(&GS, &DV) -> bool) -> (GS, DV) {
+/// Alternately shrink schema and value while `pred(schema, value)` holds.
+///
+/// Plain delta debugging may *slip* from a new disagreement to a listed one of the same
+/// direction. `score(schema, value)` counts the constructs of the pair that occur in listed
+/// findings (0 = nothing listed is left); a step that lowers the score is adopted at once,
+/// a step that keeps it is adopted only after all candidates were tried, and a step that
+/// raises it never. Listed constructs that are irrelevant to the disagreement are thereby
+/// removed first, relevant ones cannot be removed at all.
+pub fn shrink_pair(g: &GS, v: &DV, budget: usize, pred: &mut dyn FnMut(&GS, &DV) -> bool, score: &dyn Fn(&GS, &DV) -> usize) -> (GS, DV) {
   let mut g = g.clone();
   let mut v = v.clone();
   let mut used = 0usize;
+  let mut cur = score(&g, &v);
   loop {
     let mut progress = false;
-    // schema (rule 0 is the root: keep it first)
     'gs: loop {
+      let mut fallback: Option<GS> = None;
       for c in gs::shrink_steps(&g, true) {
         if used >= budget {
           break 'gs;
         }
+        let sc = score(&c, &v);
+        if sc > cur || (sc == cur && fallback.is_some()) {
+          continue;
+        }
         used += 1;
         if pred(&c, &v) {
-          g = c;
-          progress = true;
-          continue 'gs;
+          if sc < cur || cur == 0 {
+            g = c;
+            cur = sc;
+            progress = true;
+            continue 'gs;
+          }
+          fallback = Some(c);
         }
+      }
+      if let Some(c) = fallback {
+        g = c;
+        progress = true;
+        continue 'gs;
       }
       break;
     }
     'dv: loop {
+      let mut fallback: Option<DV> = None;
       for c in shrink_value_steps(&v) {
         if used >= budget {
           break 'dv;
         }
+        let sc = score(&g, &c);
+        if sc > cur || (sc == cur && fallback.is_some()) {
+          continue;
+        }
         used += 1;
         if pred(&g, &c) {
-          v = c;
-          progress = true;
-          continue 'dv;
+          if sc < cur || cur == 0 {
+            v = c;
+            cur = sc;
+            progress = true;
+            continue 'dv;
+          }
+          fallback = Some(c);
         }
+      }
+      if let Some(c) = fallback {
+        v = c;
+        progress = true;
+        continue 'dv;
       }
       break;
     }
